@@ -319,6 +319,10 @@ def run_unit(unit):
         res.interpreted = sorted(interp.interpreted)
         res.contracts_applied = sorted(interp.contracts_applied)
         res.log_calls = interp.log_calls
+        for lname in sorted(ex.loop_exit_wanted - ex.loop_exit_seen):
+            res.undecided.append(Obligation(unit.name + "/vacuity/loop-exit@" + lname, "undecided",
+                                            detail="no satisfiable state leaves the loop under its specification: what follows "
+                                                   "the loop was not verified").as_dict())
         if ex.covers == 0 and not ex.failed and not ex.undecided:
             res.undecided.append(Obligation(unit.name + "/vacuity", "undecided",
                                             detail="no satisfiable path reached the end of the unit").as_dict())
